@@ -48,6 +48,30 @@ Example demo_shadow :
   end.
 Proof. vm_compute. split; reflexivity. Qed.
 
+(* the same programme on a maildir mailbox (uids from 1, full rescan instead of the log;
+   session 3's STORE on the already expunged message works on its own cached copy) *)
+Definition md_trace : list label :=
+  [CreateMaildir 1; Deliver 1 [5] true 1; Deliver 1 [1; 5] true 2; Deliver 1 [4] true 3;
+   Deliver 1 [] true 4; CreateMaildir 2;
+   Cmd 1 (CSelect 1 false); Cmd 2 (CSelect 1 false); Cmd 3 (CSelect 1 false);
+   Cmd 2 (CStore [SOne (SNum 1)] false FAdd [2] false);
+   Cmd 2 (CExpunge None);
+   Cmd 2 (CAppend 1 [([5], 7)] (Some 2));
+   Cmd 3 (CStore [SOne (SNum 1)] false FAdd [4] false);
+   Cmd 3 (CFetch [SRange (SNum 1) SMax] false true false);
+   Cmd 1 (CMove [SOne SMax] false 2 None);
+   Cmd 3 CNoop; Cmd 1 CNoop; Cmd 2 CNoop].
+
+Example md_views :
+  let sy := exec sys_empty md_trace in
+  view_of sy 1 = Some [2; 3; 5] /\ view_of sy 2 = Some [2; 3; 5] /\ view_of sy 3 = Some [2; 3; 5]
+  /\ option_map mb_uids (aget 1 (sy_boxes sy)) = Some [2; 3; 5]
+  /\ match shadow_exec (sys_empty, fun _ => None) md_trace with
+     | Some (_, cls) => cls 3 = Some [2; 3; 5]
+     | None => False
+     end.
+Proof. vm_compute. repeat split. Qed.
+
 (* hypotheses of compare_sync are satisfiable by a non-trivial pair *)
 Example compare_example :
   compare_uids [101; 102; 104; 107] [(101, 1); (102, 2); (104, 3); (107, 4)] [102; 107; 108; 110] false
@@ -59,7 +83,7 @@ Proof. vm_compute. reflexivity. Qed.
    expunged; an update of the expunged uid then turns its expunge record into
    an update record: find_updated no longer reports the expunge. *)
 Definition f1_box : mbox :=
-  mb_delete [101] (fst (mb_append [] false 1 (mb_new false))).
+  mb_delete [101] (fst (mb_append [] false 1 (mb_new false false))).
 
 Example f1_before : snd (ms_find_updated 1 (mb_log f1_box)) = [101].
 Proof. vm_compute. reflexivity. Qed.
@@ -73,8 +97,8 @@ Lemma unguarded_update_refuted :
          /\ ~ BoxInv b'.
 Proof.
   exists f1_box, 101.
-  assert (I0 : BoxInv (fst (mb_append [] false 1 (mb_new false)))).
-  { apply (mb_append_inv [] false 1 (mb_new false)), BoxInv_new. }
+  assert (I0 : BoxInv (fst (mb_append [] false 1 (mb_new false false)))).
+  { apply (mb_append_inv [] false 1 (mb_new false false)), BoxInv_new. }
   assert (I1 : BoxInv f1_box).
   { unfold f1_box. apply mb_delete_inv; auto.
     - constructor; [intros []|constructor].
@@ -87,25 +111,6 @@ Proof.
      (with_log f1_box (ms_update [101] (mb_log f1_box))))).
   { apply (bi_alive _ I'). exists 3. vm_compute. reflexivity. }
   vm_compute in H. exact H.
-Qed.
-
-(* ------------------------------------------------------------------------
-   _compare announces every flag change that was not silenced *)
-Lemma compare_reports_flags cached before after hide silenced recent with_uid u f :
-  In (u, f) (fz_flags after) -> uf_mem (u, f) (fz_flags before) = false ->
-  uf_mem (u, f) silenced = false ->
-  exists r, In r (compare cached before after hide silenced recent with_uid)
-            /\ (r = Bug \/ exists n fl sh, r = Fetch n u fl sh).
-Proof.
-  intros Hin Hb Hs. unfold compare.
-  set (new_flags := filter (fun kf => negb (uf_mem kf (fz_flags before)) && negb (uf_mem kf silenced))
-                           (fz_flags after)).
-  assert (Hu : In u (nsort (ndiff (fz_recent after) (fz_recent before) ++ map fst new_flags))).
-  { apply nsort_In, in_or_app. right. apply in_map_iff. exists (u, f). split; auto.
-    apply filter_In. split; auto. rewrite Hb, Hs. reflexivity. }
-  eexists. split.
-  - apply in_or_app. right. apply in_or_app. right. apply in_map_iff. exists u. split; [reflexivity|exact Hu].
-  - destruct (aget u (fz_seqs after)); [destruct (cached u)|]; eauto 6.
 Qed.
 
 (* ------------------------------------------------------------------------
@@ -167,22 +172,53 @@ Lemma reachable_converges ls me s c :
     /\ v_sorted (sel_view s') = mb_uids b'
     /\ v_pending (sel_view s') = []
     /\ (forall u m, mb_alive u b' = Some m -> aget u (v_fkeys (sel_view s')) = Some (m_flags m)).
-Proof. cbn zeta. apply noop_converges, reachable_inv. Qed.
+Proof.
+  cbn zeta. intros Hs Idle Hc.
+  destruct (noop_converges _ me s c (reachable_inv ls) Hs Idle Hc) as (s' & b' & A & B & C & D & E & F & _).
+  exists s', b'. auto 10.
+Qed.
+
+(* the maildir backend, spelled out: the statements over all label sequences include the
+   sequences that create maildir mailboxes; for a session selected on one of them NOOP/CHECK is
+   the full rescan (no modification log is read) and ends with the list and the flags the
+   files hold *)
+Lemma maildir_clients_in_sync boxes ls :
+  let ls' := map CreateMaildir boxes ++ ls in
+  exists cls, shadow_exec (sys_empty, fun _ => None) ls' = Some (exec sys_empty ls', cls)
+              /\ forall s, cls s = view_of (exec sys_empty ls') s.
+Proof. cbn zeta. apply clients_in_sync. Qed.
+
+Lemma maildir_converges ls me s b c :
+  let sy := exec sys_empty ls in
+  sel_of sy me = Some s -> aget (sel_box s) (sy_boxes sy) = Some b -> mb_md b = true ->
+  ss_idle (sess_of sy me) = false -> c = CNoop \/ c = CCheck ->
+  let sy' := fst (step sy (Cmd me c)) in
+  exists s', sel_of sy' me = Some s' /\ aget (sel_box s') (sy_boxes sy') = Some b
+    /\ v_sorted (sel_view s') = mb_uids b
+    /\ v_pending (sel_view s') = []
+    /\ (forall u m, mb_alive u b = Some m -> aget u (v_fkeys (sel_view s')) = Some (m_flags m)).
+Proof.
+  cbn zeta. intros Hs Hb _ Idle Hc.
+  destruct (noop_converges _ me s c (reachable_inv ls) Hs Idle Hc) as (s' & b' & A & B & C & D & E & F & Bx).
+  rewrite C, Bx, Hb in B. injection B as <-. exists s'. rewrite C, Bx. auto 10.
+Qed.
 
 Lemma reachable_no_false_expunge ls me s :
   let sy := exec sys_empty ls in
   sel_of sy me = Some s ->
-  exists b mq, aget (sel_box s) (sy_boxes sy) = Some b /\ sel_modseq s = Some mq
-    /\ (forall u q, log_last (mb_log b) u = Some (q, true) -> (q <= mq)%N -> In u (v_sorted (sel_view s)))
+  exists b, aget (sel_box s) (sy_boxes sy) = Some b
+    /\ (mb_md b = false -> exists mq, sel_modseq s = Some mq
+          /\ (forall u q, log_last (mb_log b) u = Some (q, true) -> (q <= mq)%N ->
+                          In u (v_sorted (sel_view s))))
     /\ (forall u, In u (v_pending (sel_view s)) -> ~ In u (mb_uids b))
     /\ (forall u, In u (v_sorted (sel_view s)) -> known b u).
 Proof.
   cbn zeta. intros Hs.
   pose proof (inv_sess_of _ me (reachable_inv ls)) as H.
   unfold SessOK in H. unfold sel_of in Hs. rewrite Hs in H. destruct H as [[b [Hb S]] _].
-  destruct (si_mq _ _ S) as (mq & Hm & _ & H3 & _).
-  exists b, mq. split; [exact Hb|]. split; [exact Hm|]. split; [|split].
-  - intros u q L Hq. apply (H3 u q L Hq).
+  exists b. split; [exact Hb|]. split; [|split].
+  - intros Md. destruct (si_mq _ _ S Md) as (mq & Hm & _ & H3 & _).
+    exists mq. split; [exact Hm|]. intros u q L Hq. apply (H3 u q L Hq).
   - intros u Hu. apply (si_pending _ _ S u Hu).
   - apply (si_known _ _ S).
 Qed.
